@@ -64,7 +64,17 @@ fn unique(ty: u8, index: u16, serial: u32, global: u32, fsel: u8, timed: bool) -
         1 => Value::Dbl((s % 4) as u8),
         3 | 4 => Value::Cnt((index as u32 % 50) * 1000 + (s % 1000)),
         5 | 6 => Value::Ana(((index as i32 % 30) * 1000 + (s % 1000) as i32 - 500) as f64),
-        _ => Value::Oct(vec![ty, index as u8, s as u8, (s >> 8) as u8, global as u8]),
+        _ => {
+            let mut b = vec![ty, index as u8, s as u8, (s >> 8) as u8, global as u8];
+            // long octet strings now and then: two of them fill a 249-octet fragment, so that event responses of several
+            // fragments occur (and can be cut in the middle)
+            if fsel & 0x03 == 0x03 {
+                while b.len() < 95 + (fsel >> 3) as usize {
+                    b.push((b.len() as u8).wrapping_mul(11) ^ (s as u8));
+                }
+            }
+            Value::Oct(b)
+        }
     };
     let flags = if ty == 7 {
         0
